@@ -23,6 +23,11 @@ PROP = {
         # the harness reads a few records at a time with the real CommandMessageDecoder
         {"name": "cl", "crate": "core", "bin": "sv-cl", "machine": "cl",
          "cases": {"quick": 3000, "thorough": 100000}, "min_shard": 500, "nontrivial_min_ops": 5},
+        # agent-sent commands end to end: the real agent (SendCommand + Commanders) on the real runtime
+        # (external_links_task: CommanderIds, CommandOutput), target channels served through LinkRequest::Commander;
+        # supersession depends on scheduling: monitor only
+        {"name": "adh", "crate": "core", "bin": "sv-adh", "machine": "adh", "modes": ["monitor"],
+         "cases": {"quick": 1500, "thorough": 100000}, "min_shard": 300, "nontrivial_min_ops": 3},
         # runtime half of command lanes: the real read task (read_task / LaneSender) under AgentRouteTask
         {"name": "rf", "crate": "core", "bin": "sv-rf", "machine": "rf", "reasons": r"(?!command-count-).*",
          "cases": {"quick": 3000, "thorough": 100000}, "min_shard": 500, "nontrivial_min_ops": 5},
@@ -47,12 +52,15 @@ PROP = {
                   "in order, never for a body that fails to decode. Agent-sent commands inside the agent task "
                   "(command_buffer, CommandWriter lending, CommandSendComplete): for every interleaving read ++ channel "
                   "++ batch in flight ++ buffer = issued, buffered commands always have a write in flight, at "
-                  "quiescence everything issued has been written once, in order per target; composed with the runtime "
+                  "quiescence everything issued has been written once, in order per target; commanders: ids unique "
+                  "per address, every command sent through a commander carries an id the runtime resolves to that "
+                  "commander's own address (a registration never rebinds another id); composed with the runtime "
                   "side: what reaches a target is a supersession of what the handlers issued. Runtime side: for every "
                   "append/write/completion sequence on the CommandOutput and every target, channel ++ in flight ++ "
                   "pending is a supersession of the appended commands. Tied to the real Uplinks/SupplyBackpressure "
                   "(wt), CommandOutput (cmd), SupplyLane (sup), the agent task with CommandLane + SupplyLane (cl) and "
-                  "the runtime read task (rf) by differential execution; racing remotes by monitor (race-rf, e2e).",
+                  "the runtime read task (rf) by differential execution; racing remotes by monitor (race-rf, e2e); "
+                  "agent-sent commands end to end (real agent + real external links task, adh) by monitor.",
     "level_note": "The read task is driven through AgentRouteTask with a lane-holder agent (model comparison when "
                   "every envelope is followed by a settle; racing remotes are judged by the monitor only). The "
                   "hand-over between agent task, lane channel and write task is covered by the end-to-end rig, not "
@@ -67,5 +75,6 @@ PROP = {
         "parameter of the model is instantiated with what the rig's lifecycle does)"],
     "assumptions": ["the supply lane stays linked to the remote in the exactly-once theorems",
                     "read feed: lane endpoints stay open and all lanes are registered before the first envelope",
-                    "command handler: a handler commands its own lane at most once and that nested handler does not"],
+                    "command handler: a handler commands its own lane at most once and that nested handler does not",
+                    "commanders: fewer than 65535 distinct addresses (CommanderIdOverflow is not modelled)"],
 }
